@@ -6,7 +6,8 @@
 (***************************************************************************)
 EXTENDS Resolve, TLC, Json
 
-CONSTANTS MaxArity, OpLo, OpHi     \* operators OpLo..OpHi of the catalogue (sharding)
+CONSTANTS MaxArity, OpLo, OpHi,    \* operators OpLo..OpHi of the catalogue (sharding)
+          OnlyOps                  \* if not empty: only the operators with these names (a deeper arity bound for a few operators)
 
 VARIABLES oi, args, done
 vars == <<oi, args, done>>
@@ -15,7 +16,7 @@ U == {Universe[i] : i \in DOMAIN Universe}
 Arities(op) == UNION {IF op.sigs[j].va THEN (IF Len(op.sigs[j].ps) >= 2 THEN (Len(op.sigs[j].ps) - 1)..MaxArity ELSE {})
                       ELSE {Len(op.sigs[j].ps)} : j \in DOMAIN op.sigs}
 
-Init == /\ oi \in OpLo..OpHi
+Init == /\ oi \in {i \in OpLo..OpHi : OnlyOps = {} \/ Ops[i].name \in OnlyOps}
         /\ \E n \in {k \in Arities(Ops[oi]) : k <= MaxArity /\ k >= 0} : args \in [1..n -> U]
         /\ done = FALSE
 
